@@ -1,18 +1,21 @@
 #!/bin/sh
-# Build the framework offline: the Lean library (all models, lemmas, property theorems)
-# and the compiled model driver.  Generated tables are refreshed first so that the build
-# matches /repo's current tree.
-set -e
+# Build the framework offline: generated tables, the Lean proofs and the compiled model
+# driver of every property claimed in MANIFEST.json.  Checks re-run their own translators
+# and `lake build` (a no-op when nothing changed) on every invocation.
 here=$(cd "$(dirname "$0")" && pwd)
 export PYTHONDONTWRITEBYTECODE=1
 cd "$here/translators"
 for t in gen_*.py; do
-  GIVERIF_REPO=/repo PYTHONPATH=/repo /venv/bin/python "$t"
+  GIVERIF_REPO=/repo PYTHONPATH=/repo /venv/bin/python "$t" || echo "setup: translator $t failed (its check will report it)"
 done
 cd "$here/lean"
-targets="GIVerif"
-for f in Driver/C*.lean; do
-  n=$(basename "$f" .lean | tr 'A-Z' 'a-z')
-  targets="$targets gidriver_$n"
+props=$(/venv/bin/python -c "
+import json
+m = json.load(open('$here/MANIFEST.json'))
+print(' '.join(c['property_id'] for c in m['checks']))")
+status=0
+for p in $props; do
+  low=$(echo "$p" | tr 'A-Z' 'a-z')
+  lake build "GIVerif.Props.$p" "gidriver_$low" || { echo "setup: build for $p failed"; status=1; }
 done
-lake build $targets
+exit $status
